@@ -16,7 +16,7 @@ import (
 )
 
 var verifC07Order [8]parser.SelectQuery
-var verifC07Cut [2]parser.SelectQuery
+var verifC07Cut [4]parser.SelectQuery
 var verifC07Pct [2]parser.SelectQuery
 var verifC07PctLarge parser.SelectQuery
 var verifC07LargeRows [][]value.Primary
@@ -36,6 +36,9 @@ func VerifC07Setup() {
 	verifC07Order[7] = verifParseSelect("select id, k from t order by rank() over (order by k desc) desc, id desc")
 	verifC07Cut[0] = verifParseSelect("select id, k from t order by k limit @l offset @o")
 	verifC07Cut[1] = verifParseSelect("select id, k from t order by k limit @l with ties offset @o")
+	// the same cut with the OFFSET taken in a subquery: it must not leak into the outer LIMIT
+	verifC07Cut[2] = verifParseSelect("select id, k from (select id, k from t order by k offset @o) s order by k limit @l")
+	verifC07Cut[3] = verifParseSelect("select id, k from (select id, k from t order by k offset @o) s order by k limit @l with ties")
 	verifC07Pct[0] = verifParseSelect("select id, k from t order by k limit @p percent offset @o")
 	verifC07Pct[1] = verifParseSelect("select id, k from t order by k limit @p percent with ties offset @o")
 	verifC07PctLarge = verifParseSelect("select id from big limit @p percent")
@@ -167,7 +170,7 @@ func VerifC07LimitOffset() {
 	scope := NewReferenceScope(tx)
 	n := verifChoice("n", verifBound(4, 5))
 	t := verifC07Rows(scope, n, false)
-	qi := verifChoice("ties", 2)
+	qi := verifChoice("ties", 4)
 	limit := verifInt64("limit")
 	offset := verifInt64("offset")
 	verifVar(scope, "l", value.NewInteger(limit))
@@ -189,7 +192,7 @@ func VerifC07LimitOffset() {
 			want = int(limit)
 		}
 	}
-	verifC07CheckCut(t, out, off, want, qi == 1)
+	verifC07CheckCut(t, out, off, want, qi == 1 || qi == 3)
 	verifObserve("rows", int64(len(out)))
 	verifReach("end")
 }
@@ -324,6 +327,8 @@ var verifC07TwoSpec = []struct {
 	{"select distinct k, count(*) over (partition by k) from t order by k", false, true, false, true},
 	// WITH TIES: exactly the rows whose key ties with the first one (an integer ties with the equal float)
 	{"select id, k, m from t order by k limit 1 with ties", false, true, false, true},
+	// sort keys that are expressions outside the select list, next to an analytic function
+	{"select id, k, m, rank() over (order by k) from t order by k + 0, m + 0", false, true, false, true},
 }
 
 func VerifC07Setup2() {
